@@ -180,6 +180,17 @@ def on_run_model(on_run, s, pth, what):
     on_run(r, s)
 
 
+def history_finale(w):
+    """C09: read every execution's history through the real API, in both orders"""
+    for arn in list(w.i0().engine.executions.keys()):
+        st1, b1 = w.api("GetExecutionHistory", {"executionArn": arn})
+        st2, b2 = w.api("GetExecutionHistory", {"executionArn": arn, "reverseOrder": True})
+        f = b1.get("events", []) if isinstance(b1, dict) else []
+        r = b2.get("events", []) if isinstance(b2, dict) else []
+        w.rec.emit("histapi", exec=arn, status=st1 if st1 == st2 else 0, fwd=[e.get("id", -1) for e in f], rev=[e.get("id", -1) for e in r],
+                   fwdtypes=[e.get("type", "") for e in f], revtypes=[e.get("type", "") for e in r])
+
+
 def run(prop, tier_name=None, replay=None):
     t = get_tier(tier_name)
     thorough = t == "thorough"
@@ -229,6 +240,8 @@ def run(prop, tier_name=None, replay=None):
                             "machine": s["machines"][0]["asl"], "input": s["starts"][0]["input"]})
 
     for s in scns:
+        if prop == "C09" and s.get("machines", [{}])[0].get("type", "STANDARD") == "STANDARD":
+            on_run(run_once(s, finale=history_finale), s)
         n, done = explore_dfs(s, budget=dfs_budget, on_run=lambda r, s=s: on_run(r, s))
         complete[s["id"]] = done
         if not done:
